@@ -42,8 +42,15 @@ pub fn main() {
             if let Some(x) = cfg.get("release").and_then(|x| x.as_u64()) { snap.release_threshold = x as u8; }
             if let Some(x) = cfg.get("delay").and_then(|x| x.as_u64()) { snap.repeat_delay = x as u8; }
             if let Some(x) = cfg.get("interval").and_then(|x| x.as_u64()) { snap.repeat_interval = x as u8; }
-            if let Some(x) = cfg.get("active_high").and_then(|x| x.as_bool()) { snap.columns_active_high = x; }
+            let via_setter = cfg.get("via_setter").and_then(|x| x.as_bool()).unwrap_or(false);
+            if !via_setter {
+                if let Some(x) = cfg.get("active_high").and_then(|x| x.as_bool()) { snap.columns_active_high = x; }
+            }
             kb.load_snapshot_state(&snap);
+            if via_setter {
+                // polarity chosen through the public setter, with no KOL/KOH write afterwards
+                if let Some(x) = cfg.get("active_high").and_then(|x| x.as_bool()) { kb.set_columns_active_high(x); }
+            }
         }
         let mut out = Vec::new();
         if let Some(ops) = v.get("ops").and_then(|o| o.as_array()) {
